@@ -148,4 +148,19 @@ PROPS["C16"] = {
                     "the grapheme segmentation of the normalised text is an input of the model"],
 }
 
+_train_rule = ("random training runs: window and n-gram sizes in 0..4 (independently, incl. n > window and differing windows; the "
+               "configurations that failed on the pinned tree first), dictionaries with length buckets 1..4, tag dictionaries, "
+               "corpora of 3-8 (quick) / 3-12 (thorough) tokenized and partially annotated sentences over a 7-character alphabet, "
+               "4 evaluation texts; the learner's quantised output is read from the hook trace of the same run and handed to the "
+               "Lean model, which must assemble the byte-identical model; non-trivial = distinct case whose training returned a model")
+for _pid, _extra in (("C09", ""), ("C10", ""), ("C11", " — corpus kinds cycle through {empty, single class, untagged, partially tagged, partially annotated, ambiguous tags} and all 8 solvers"), ("C12", " — tagged corpora with ambiguity, absent tags, dictionary-only tokens")):
+    PROPS[_pid] = {
+        "families": [_pid],
+        "nontrivial": lambda line, out: out.startswith("X"),
+        "rule": _train_rule + _extra,
+        "scopes": {},
+        "assumptions": ["liblinear is an arbitrary function from the training problem to coefficients; f64 quantisation is outside the model "
+                        "(the quantised integers are read through the verif-hooks trace)"],
+    }
+
 SETUP_EXTRA = [extras.setup_feature_builds, extras.build_tantivy]
